@@ -147,7 +147,7 @@ def get_real_bipartite_numerical_range(mat, kind='min', method='eigen'):
     return ret
 
 
-def detect_real_matrix_subspace_rank_one(matrix_subspace):
+def detect_real_matrix_subspace_rank_one(matrix_subspace, zero_eps:float=1e-7):
     r'''detect whether a real matrix subspace has nonzero rank-one element
 
     Given a series of real matrices $A_i$, the matrix subspace spanned over real field is defined as
@@ -160,6 +160,7 @@ def detect_real_matrix_subspace_rank_one(matrix_subspace):
 
     Parameters:
         matrix_subspace (np.ndarray): 3-dimensional numpy array of shape `(N0,N1,N1)`, must be real
+        zero_eps (float): `upper_bound` within `zero_eps` of 1 is treated as 1 (the bound is exactly 1 when a rank-one element exists)
 
     Returns:
         tag_rank_one (bool): if `False`, then all nonzero elements in $\langle A\rangle_\mathbb{R}$ are of rank at least two.
@@ -172,7 +173,7 @@ def detect_real_matrix_subspace_rank_one(matrix_subspace):
     tmp0 = basis.reshape(basis.shape[0], dimA*dimB)
     projector = tmp0.T @ tmp0
     upper_bound = get_real_bipartite_numerical_range(projector.reshape(dimA,dimB,dimA,dimB), kind='max')
-    if upper_bound < 1:
+    if upper_bound < 1-zero_eps:
         tag_rank_one = False
     else:
         tag_rank_one = True #could be wrong
